@@ -220,6 +220,7 @@ def thunks():
             warnings.simplefilter("ignore")
             return PersImage(pixels=(3, 3), verbose=False).transform([P["A"], P["B"]])
 
+    reg("PersImage_to_landscape", lambda P: PersImage.to_landscape(P["A"]), ["A"], forms=("int", "f64", "f32"))
     reg("PersImage_transform", persimage, ["A"], forms=("int", "f64", "f32"))
     reg("PersImage_transform_list", persimage_list, ["A", "B"], forms=("int", "f64", "f32"))
 
